@@ -33,6 +33,7 @@ import struct
 
 from ..cfg import CFG, raises_only
 from ..model import DEX, AnalysisError, norm, parent, walk_no_nested
+from ..minipy import Interp, Role, Free, Obj, ClassV, FuncV, BufferV, Region, StructV, PyRaise, explore
 from ..pathkit import (Ev, truths, NotEvaluable, Opaque, Defs, reach, branch_edges, swallowed_by,
                        non_catching_handlers, int_consts, order_points, exec_path, stmt_of,
                        run_mutants, rename_locals, flip_ifs, neq_to_not_eq)
@@ -93,557 +94,288 @@ def _mentions(expr, keys):
 
 
 class Core:
+    """the header clauses are decided by *interpreting* HeaderItem.__init__ / DalvikPacker.__init__ (agstatic.minipy)
+    on every point of a finite partition of the wrong header values; helper methods, static methods, module constants,
+    zip/setattr loops, locals, early returns are simply executed.  Unconstrained header fields are `Free` values whose
+    comparisons are explored both ways."""
+
+    VALID = dict(nbytes=4096, magic=GOOD_MAGICS[0], checksum=0x1234ABCD, adler=0x1234ABCD, header_size=HEADER_LEN, endian=ENDIAN_CONSTANT)
+
     def __init__(self, ctx):
         self.ctx = ctx
         self.m = ctx.mod(DEX)
         self.util = ctx.mod(UTIL)
+        self.rec = {r: set() for r in ("nbytes", "checksum", "adler", "header_size", "endian")}
+        self.holders = {}
+        self.n_runs = 0
 
-    # ------------------------------------------------------------------ read_at contract
-    def check_read_at(self):
-        ctx = self.ctx
-        r = self.m.resolve_name("read_at")
-        ctx.require(r is not None and r[0] == "func", "anchor vanished: read_at is not a repository function")
-        f = r[1]
-        self.read_at = f
-        ctx.analysed(f)
-        a = f.node.args
-        names = [x.arg for x in a.args]
-        ctx.require(len(names) == 3 and len(a.defaults) >= 1, "read_at(buff, offset, size=...) signature changed")
-        pb, po, ps = names
-        dflt = a.defaults[-1]
-        self.read_at_params = names
-        pos = "POS0"
-        saved = {}
-        result = None
-        ret = None
-        for s in f.node.body:
-            if isinstance(s, ast.Expr) and isinstance(s.value, ast.Constant):
-                continue
-            call = s.value if isinstance(s, (ast.Assign, ast.Expr)) else (s.value if isinstance(s, ast.Return) else None)
-            if isinstance(s, ast.Return):
-                if isinstance(s.value, ast.Name) and s.value.id in saved:
-                    ret = saved[s.value.id]
-                elif isinstance(s.value, ast.Call) and ast.unparse(s.value.func) == pb + ".read":
-                    raise AnalysisError("read_at returns without restoring the position (outside the analysed shape)")
-                else:
-                    raise AnalysisError("read_at: unexpected return %s" % ast.unparse(s))
-                continue
-            if not (isinstance(call, ast.Call) and isinstance(call.func, ast.Attribute) and ast.unparse(call.func.value) == pb):
-                raise AnalysisError("read_at: statement outside the straight-line tell/seek/read shape: %s" % norm(s))
-            meth = call.func.attr
-            arg = ast.unparse(call.args[0]) if call.args else None
-            if meth == "tell":
-                val = pos
-            elif meth == "seek":
-                pos = saved.get(arg, arg)
-                val = None
-            elif meth == "read":
-                val = ("read", pos, arg)
-                pos = "AFTER"
-            else:
-                raise AnalysisError("read_at: unknown buffer call %s" % meth)
-            if isinstance(s, ast.Assign) and len(s.targets) == 1 and isinstance(s.targets[0], ast.Name):
-                saved[s.targets[0].id] = val
-        ok = ret == ("read", po, ps) and pos == "POS0"
-        ctx.check("read_at", "read_at returns buff[offset:offset+size] and restores the position", ok, f, f.node.name,
-                  "read_at no longer returns `size` bytes from `offset` with the position restored (got %r, final position %r)" % (ret, pos),
-                  detail="symbolic run: returns read(start=%s, size=%s), position restored" % (po, ps))
-        dv = None
-        try:
-            dv = Ev()(dflt)
-        except NotEvaluable:
-            pass
-        self.read_at_default_to_eof = dv in (-1, None)
-        ctx.check("read_at", "default size reads to EOF", self.read_at_default_to_eof, f, "size=%s" % ast.unparse(dflt),
-                  "read_at's default size is %s, not -1: callers that omit it no longer read to the end of the buffer" % ast.unparse(dflt),
-                  detail="default size = %s" % ast.unparse(dflt))
-
-    def read_at_call(self, call):
-        """-> (buffer expr, offset expr, size expr|None) if `call` calls read_at"""
-        if not (isinstance(call, ast.Call) and isinstance(call.func, ast.Name)):
-            return None
-        r = self.m.resolve_name(call.func.id)
-        if not (r and r[0] == "func" and r[1] is self.read_at):
-            return None
-        vals = dict(zip(self.read_at_params, call.args))
-        for k in call.keywords:
-            vals[k.arg] = k.value
-        pb, po, ps = self.read_at_params
-        return vals.get(pb), vals.get(po), vals.get(ps)
-
-    # ------------------------------------------------------------------ DalvikPacker
-    def check_packer(self):
-        ctx = self.ctx
-        pk = self.m.func("DalvikPacker.__init__")
-        ctx.analysed(pk)
-        params = pk.params()
-        ctx.require(len(params) == 2, "DalvikPacker.__init__(self, endian_tag) signature changed")
-        tag = params[1]
-        consts = set()
-        for n in walk_no_nested(pk.node):
-            if isinstance(n, ast.If):
-                consts |= int_consts(n.test)
-        pts = order_points(consts | {ENDIAN_CONSTANT, 0x78563412}, extra=(0xFFFFFFFF,))
-        attrs = {}
-        body = [s for s in pk.node.body if not (isinstance(s, ast.Expr) and isinstance(s.value, ast.Constant))]
-        bad = []
-        outcomes = {}
-        for v in pts:
-            if v > 0xFFFFFFFF:
-                continue
-            attrs.clear()
-
-            def on_assign(s, ev, attrs=attrs):
-                for t in s.targets:
-                    if isinstance(t, ast.Attribute) and isinstance(s.value, ast.Constant):
-                        attrs[ast.unparse(t)] = s.value.value
-            try:
-                r = exec_path(body, Ev({tag: v}), on_assign)
-            except NotEvaluable as e:
-                raise AnalysisError("DalvikPacker.__init__ left the analysable fragment (%s)" % e)
-            outcomes[v] = r
-            if v == ENDIAN_CONSTANT:
-                ctx.count("guards")
-                ctx.check("endian/accept", "endian_tag 0x12345678 is accepted", r[0] != "raise", pk, "endian_tag == 0x%08x" % v,
-                          "DalvikPacker rejects the little-endian constant 0x12345678", node=r[2] if r[0] == "raise" else pk.node,
-                          detail="path for 0x12345678 falls through; struct prefix attribute = %r" % dict(attrs))
-                self.packer_prefix = dict(attrs)
-            elif not (r[0] == "raise" and r[1] in REJECT_EXC):
-                bad.append((v, r))
-        sw = swallowed = None
-        for n in walk_no_nested(pk.node):
-            if isinstance(n, ast.Raise):
-                sw = swallowed_by(n, pk.node, REJECT_EXC)
-                if sw:
-                    swallowed = n
-        ctx.count("guards")
-        wit = ["0x%08x -> %s" % (v, r[0] if r[0] != "raise" else "raise " + str(r[1])) for v, r in bad[:4]]
-        ctx.check("endian/reject", "every endian_tag != 0x12345678 raises (%d cells of the constant partition)" % (len(outcomes) - 1),
-                  not bad and not swallowed, pk, "endian_tag != 0x12345678",
-                  "DalvikPacker.__init__ does not raise ValueError/NotImplementedError for endian tag(s): %s" % (", ".join(wit) or "raise is swallowed by an enclosing try"),
-                  node=pk.node, witness=wit,
-                  detail="cells evaluated: %s" % ", ".join("0x%x:%s" % (v, r[1] if r[0] == "raise" else r[0]) for v, r in sorted(outcomes.items())))
-        # the prefix DalvikPacker hands to struct
-        gi = self.m.func("DalvikPacker.__getitem__")
-        pref = None
-        for n in ast.walk(gi.node):
-            if isinstance(n, ast.Call) and ast.unparse(n.func).endswith("Struct") and n.args and isinstance(n.args[0], ast.BinOp) \
-                    and isinstance(n.args[0].op, ast.Add):
-                key = ast.unparse(n.args[0].left)
-                pref = getattr(self, "packer_prefix", {}).get(key)
-                if pref is None:
-                    # the accepting path was not found (already reported): fall back to the constants ever stored there
-                    vals = {d[1].value for d in Defs(pk.node).of(key) if d[0] == "assign" and isinstance(d[1], ast.Constant)}
-                    pref = vals.pop() if len(vals) == 1 else None
-        self.packer_le = pref == "<"
-        ctx.ob("endian/prefix", "DalvikPacker[fmt] is struct.Struct('<' + fmt) on the accepting path", self.packer_le,
-               "prefix attribute constant on the accepting path: %r" % pref)
-        ctx.require(self.packer_le, "DalvikPacker.__getitem__ no longer builds struct.Struct('<' + fmt): header layout cannot be derived")
-
-    # ------------------------------------------------------------------ HeaderItem.__init__
-    def _unpack_call(self, call):
-        """-> (fmt, data_expr, via_packer) for the recognised spellings of struct unpacking"""
-        if not isinstance(call, ast.Call):
-            return None
-        f = call.func
-        if isinstance(f, ast.Attribute) and f.attr == "unpack" and len(call.args) == 1:
-            if isinstance(f.value, ast.Subscript) and isinstance(f.value.slice, ast.Constant) and isinstance(f.value.slice.value, str):
-                return "<" + f.value.slice.value, call.args[0], True
-            if isinstance(f.value, ast.Call) and ast.unparse(f.value.func).endswith("Struct") and f.value.args \
-                    and isinstance(f.value.args[0], ast.Constant):
-                return f.value.args[0].value, call.args[0], False
-        if (ast.unparse(f) in ("unpack", "struct.unpack")) and len(call.args) == 2 and isinstance(call.args[0], ast.Constant) \
-                and isinstance(call.args[0].value, str):
-            return call.args[0].value, call.args[1], False
-        return None
-
-    def roles_header(self):
-        ctx = self.ctx
+    # ------------------------------------------------------------------ one interpreted construction
+    def buffer_param(self):
         hdr = self.hdr = self.m.func("HeaderItem.__init__")
-        ctx.analysed(hdr)
-        node = hdr.node
-        self.hcfg = CFG(node)
-        self.hdefs = Defs(node)
-        params = hdr.params()
-        # ---- the header unpack
-        cands = []
-        for n in walk_no_nested(node):
-            if isinstance(n, ast.Assign) and isinstance(n.value, ast.Call):
-                u = self._unpack_call(n.value)
-                if u and isinstance(u[1], ast.Call) and isinstance(u[1].func, ast.Attribute) and u[1].func.attr == "read" \
-                        and isinstance(u[1].func.value, ast.Name) and u[1].func.value.id in params:
-                    cands.append((n, u))
-        ctx.require(len(cands) == 1, "HeaderItem.__init__: expected exactly one unpack of <buffer>.read(N), found %d" % len(cands))
-        self.unpack_stmt, (fmt, data, via_packer) = cands[0]
-        self.buff = data.func.value.id
-        slots = _fmt_slots(fmt)
-        tgt = self.unpack_stmt.targets[0]
-        ctx.require(isinstance(tgt, (ast.Tuple, ast.List)) and len(tgt.elts) == len(slots),
-                    "header unpack: %d targets for %d format slots" % (len(getattr(tgt, "elts", [])), len(slots)))
-        try:
-            nread = Ev()(data.args[0]) if data.args else -1
-        except NotEvaluable:
-            raise AnalysisError("header unpack: read size is not a constant")
-        ctx.require(nread == struct.calcsize(fmt), "header unpack reads %r bytes for a %d byte format" % (nread, struct.calcsize(fmt)))
-        by_off = {o: (t, sz, code) for (o, sz, code), t in zip(slots, tgt.elts)}
-        self.role = {}
-        for name, off, sz, codes in (("magic", OFF_MAGIC, 8, "s"), ("checksum", OFF_CHECKSUM, 4, "IL"),
-                                     ("header_size", OFF_HEADER_SIZE, 4, "IL"), ("endian_slot", OFF_ENDIAN, 4, "IL")):
-            got = by_off.get(off)
-            ok = got is not None and got[1] == sz and got[2] in codes
-            ctx.check("layout", "header field %s at offset %d (%d bytes, unsigned)" % (name, off, sz), ok, hdr,
-                      "%s @%d" % (name, off), "the header format %r has no unsigned %d-byte slot at offset %d for %s" % (fmt, sz, off, name),
-                      node=self.unpack_stmt, detail="format %s -> %s receives bytes [%d,%d)" % (fmt, ast.unparse(got[0]) if got else "?", off, off + sz))
-            if not ok:
-                raise AnalysisError("header layout cannot be derived; guards cannot be attributed")
-            self.role[name] = {ast.unparse(got[0])}
-        if via_packer:
-            ctx.require(self.packer_le, "header unpack goes through a packer whose prefix is unknown")
-        # ---- offset role: T = buff.tell() dominating the unpack
-        self.role["offset"] = set()
-        for n in walk_no_nested(node):
-            if isinstance(n, ast.Assign) and isinstance(n.value, ast.Call) and ast.unparse(n.value.func) == self.buff + ".tell":
-                if self.hcfg.dominates(n, self.unpack_stmt) and not reach(self.hcfg, self.unpack_stmt, n):
-                    for t in n.targets:
-                        self.role["offset"].add(ast.unparse(t))
-        # ---- buffer discipline: nothing else moves the position
-        for c in (x for x in walk_no_nested(node) if isinstance(x, ast.Call)):
-            if isinstance(c.func, ast.Attribute) and isinstance(c.func.value, ast.Name) and c.func.value.id == self.buff:
-                if c.func.attr == "seek" or (c.func.attr == "read" and c is not data):
-                    raise AnalysisError("HeaderItem.__init__ moves the buffer position (%s): outside the analysed fragment" % norm(c))
-            elif any(isinstance(a, ast.Name) and a.id == self.buff for a in c.args) and self.read_at_call(c) is None:
-                raise AnalysisError("HeaderItem.__init__ passes the buffer to %s: outside the analysed fragment" % norm(c.func))
-        # ---- words read ahead with read_at
-        self.words = {}
-        for n in walk_no_nested(node):
-            if isinstance(n, ast.Assign) and isinstance(n.value, (ast.Call, ast.Subscript)):
-                call = n.value.value if isinstance(n.value, ast.Subscript) else n.value
-                u = self._unpack_call(call)
-                if not u:
-                    continue
-                ra = self.read_at_call(self._resolve(u[1]))
-                if not ra:
-                    continue
-                t = n.targets[0]
-                if isinstance(t, (ast.Tuple, ast.List)) and len(t.elts) == 1:
-                    t = t.elts[0]
-                elif not isinstance(n.value, ast.Subscript):
-                    continue
-                self.words[ast.unparse(t)] = (u[0], ra, n)
-        # ---- aliases (x = <holder>)
-        changed = True
-        while changed:
-            changed = False
-            for n in walk_no_nested(node):
-                if isinstance(n, ast.Assign) and len(n.targets) == 1 and isinstance(n.targets[0], (ast.Name, ast.Attribute)):
-                    src, dst = ast.unparse(n.value), ast.unparse(n.targets[0])
-                    for r, keys in self.role.items():
-                        if src in keys and dst not in keys:
-                            keys.add(dst)
-                            changed = True
-                    if src in self.words and dst not in self.words:
-                        self.words[dst] = self.words[src]
-                        changed = True
-        for r, keys in self.role.items():
-            for k in keys:
-                if len(self.hdefs.of(k)) > 1:
-                    raise AnalysisError("HeaderItem.__init__ assigns %s more than once: role tracking is flow-insensitive" % k)
-        # ---- buffer size expressions
-        self.role["nbytes"] = set()
-        for n in walk_no_nested(node):
-            if isinstance(n, ast.Attribute) and n.attr == "nbytes" and _root_name(n) == self.buff:
-                self.role["nbytes"].add(ast.unparse(n))
-            if isinstance(n, ast.Call) and ast.unparse(n.func) == "len" and n.args and _root_name(n.args[0]) == self.buff \
-                    and ".read(" not in ast.unparse(n):
-                self.role["nbytes"].add(ast.unparse(n))
+        self.ctx.analysed(hdr)
+        for p in hdr.node.args.args[1:]:
+            ann = ast.unparse(p.annotation) if p.annotation is not None else ""
+            if p.arg in ("buff", "buf", "buffer") or "BinaryIO" in ann or ann.startswith("IO"):
+                self.buff = p.arg
+                return
+        raise AnalysisError("HeaderItem.__init__ has no recognisable buffer parameter")
 
-    def _resolve(self, e, depth=3):
-        """a local with a single plain assignment stands for the assigned expression"""
-        while depth and isinstance(e, ast.Name):
-            ds = self.hdefs.of(e.id)
-            if len(ds) == 1 and ds[0][0] == "assign":
-                e = ds[0][1]
-                depth -= 1
+    def construct(self, pt, decisions):
+        """-> (interp, outcome) ; outcome = ('ok',) | ('raise', name, node)"""
+        P0 = self.P0
+        cache = {}
+        magic = bytes(pt["magic"])
+        adler_regions = []
+
+        def field(it, abs_off, size, code, order):
+            rel = abs_off - P0
+            key = (rel, size, code, order)
+            if key in cache:
+                return cache[key]
+            v = None
+            if rel == OFF_MAGIC and size == 8 and code == "s":
+                v = magic
+                it.watch_obj(v, "magic")
+            elif rel in (OFF_CHECKSUM, OFF_HEADER_SIZE, OFF_ENDIAN) and size == 4:
+                if order != "<" or code not in "IL":
+                    raise NotEvaluable("header word at offset %d is read as %r%s, not as a little-endian unsigned 32-bit value" % (rel, order, code))
+                role = {OFF_CHECKSUM: "checksum", OFF_HEADER_SIZE: "header_size", OFF_ENDIAN: "endian"}[rel]
+                v = Role(pt[role], role, self.rec[role])
+            elif rel < HEADER_LEN and any(rel < o + 4 and o < rel + size for o in (OFF_CHECKSUM, OFF_HEADER_SIZE, OFF_ENDIAN)) or \
+                    (rel < 8 and rel + size > 0 and not (rel == 0 and size == 8)):
+                raise NotEvaluable("header bytes [%d,%d) are read with an unexpected layout" % (rel, rel + size))
             else:
-                break
-        return e
+                v = Free("header field @%d" % rel)
+            cache[key] = v
+            return v
 
-    def lin(self, e):
-        """expression -> (k, c) meaning k*OFFSET + c"""
-        if ast.unparse(e) in self.role["offset"]:
-            return (1, 0)
-        if isinstance(e, ast.Constant) and isinstance(e.value, int):
-            return (0, e.value)
-        if isinstance(e, ast.BinOp) and isinstance(e.op, (ast.Add, ast.Sub)):
-            a, b = self.lin(e.left), self.lin(e.right)
-            s = 1 if isinstance(e.op, ast.Add) else -1
-            return (a[0] + s * b[0], a[1] + s * b[1])
-        if isinstance(e, ast.Name):
-            ds = self.hdefs.of(e.id)
-            if len(ds) == 1 and ds[0][0] == "assign":
-                return self.lin(ds[0][1])
-        raise NotEvaluable("offset expression %s" % ast.unparse(e))
+        def adler(it, args, node):
+            if len(args) < 1 or not isinstance(args[0], Region):
+                raise NotEvaluable("adler32 over something that is not read from the buffer")
+            adler_regions.append((args[0].start - P0, args[0].size, node, it.qual()))
+            return Role(pt["adler"], "adler", self.rec["adler"])
 
-    def _self_const_call(self):
-        """self.m() where HeaderItem.m is `return <constant expression>`"""
-        cls = self.hdr.cls
-
-        def match(c):
-            return isinstance(c.func, ast.Attribute) and isinstance(c.func.value, ast.Name) and c.func.value.id == "self" \
-                and not c.args and cls is not None and cls.lookup(c.func.attr) is not None
-
-        def provide(c, ev):
-            f = cls.lookup(c.func.attr)
-            body = [s for s in f.node.body if not (isinstance(s, ast.Expr) and isinstance(s.value, ast.Constant))]
-            if len(body) == 1 and isinstance(body[0], ast.Return) and body[0].value is not None:
-                return Ev()(body[0].value)
-            raise NotEvaluable("self.%s() is not a constant getter" % c.func.attr)
-        return (match, provide)
-
-    def _is_adler(self, c):
-        if not isinstance(c, ast.Call):
-            return False
-        f = c.func
-        if isinstance(f, ast.Attribute) and f.attr == "adler32" and isinstance(f.value, ast.Name):
-            return self.m.imports.get(f.value.id, (None,))[0] == "zlib"
-        if isinstance(f, ast.Name):
-            return self.m.imports.get(f.id) == ("zlib", "adler32")
-        return False
-
-    def _tv(self, desc, G, env, calls):
-        """truth values of G.test at one abstract point, over all assignments of opaque atoms
-        (sub-expressions that mention no role holder and no adler32 call)"""
-        keys = set(env)
-
-        def atom_ok(e):
-            return not _mentions(e, keys) and not any(self._is_adler(n) for n in ast.walk(e))
-        out = []
-        for atoms, v in truths(G.test, env, calls, atom_ok):
-            d = desc + ("" if not atoms else " when " + ", ".join("`%s` is %s" % (k[:50], a) for k, a in atoms.items()))
-            out.append((d, v))
-        return out
-
-    def _guard(self, role, label, G, evaluate_wrong, exc=("ValueError",)):
-        """evaluate_wrong() -> list of (point description, bool arm)  for every wrong point.
-        -> (ok, reason, raises)"""
-        cfg = self.hcfg
+        it = Interp(self.ctx.repo, field, {"zlib.adler32": adler}, decisions)
+        it.adler_regions = adler_regions
+        buf = BufferV(Role(pt["nbytes"], "nbytes", self.rec["nbytes"]), pos=P0)
+        args = [Obj(self.hdr.cls)]
+        for p in self.hdr.params()[1:]:
+            args.append(buf if p == self.buff else (Obj(None, p) if p != "size" else 0))
+        self.n_runs += 1
         try:
-            arms = evaluate_wrong(G)
+            it.call_function(FuncV(self.hdr), args, {})
+            out = ("ok",)
+        except PyRaise as e:
+            out = ("raise", e.name, e.node)
+        for r, hs in it.holders.items():
+            self.holders.setdefault(r, set()).update(hs)
+        return it, out
+
+    def paths(self, pt):
+        try:
+            return explore(lambda dec: dec, lambda dec: self.construct(pt, dec), max_runs=64)
         except NotEvaluable as e:
-            return None, "not evaluable: %s" % e, []
-        avoid = non_catching_handlers(self.hdr.node, exc)
-        if reach(cfg, cfg.entry, cfg.exit, avoid_nodes=[G]):
-            return False, "the guard is not on every path to the normal exit", []
-        vals = {}
-        for desc, v in arms:
-            vals.setdefault(bool(v), desc)
-        raises = []
-        for v, desc in vals.items():
-            for (_, tgt) in branch_edges(cfg, G, v):
-                if tgt is cfg.exit or reach(cfg, tgt, cfg.exit, avoid_nodes=avoid):
-                    return False, "for %s the test is %s and that arm reaches the normal exit (no raise, or the raise is caught)" % (desc, v), []
-            arm = G.body if v else G.orelse
-            for s in arm:
-                for n in walk_no_nested(s):
-                    if isinstance(n, ast.Raise):
-                        raises.append(n)
-        for r in raises:
-            sw = swallowed_by(r, self.hdr.node, exc)
-            if sw:
-                return False, "the raise is inside a try whose `except %s` arm does not re-raise" % (ast.unparse(sw[1].type) if sw[1].type else ""), []
-        return True, "", raises
+            raise AnalysisError("HeaderItem.__init__ left the interpretable fragment: %s" % e)
 
-    def _decide(self, role, label, keys, evaluate_wrong, what_wrong):
-        ctx, hdr = self.ctx, self.hdr
-        ifs = [n for n in walk_no_nested(hdr.node) if isinstance(n, ast.If) and _mentions(n.test, keys)]
-        results = [(G,) + tuple(self._guard(role, label, G, evaluate_wrong)) for G in ifs]
-        good = [r for r in results if r[1] is True]
-        ctx.count("guards")
-        if good:
-            G = good[0][0]
-            exc = sorted({ast.unparse(r.exc.func if isinstance(r.exc, ast.Call) else r.exc) for r in good[0][3] if r.exc is not None})
-            ctx.check("guard/" + role, label, True, hdr, G.test, "", node=G,
-                      detail="`if %s` raises %s for %s and lies on every path to the exit" % (norm(G.test)[:80], "/".join(exc), what_wrong))
-            return G
-        # a mention that cannot be evaluated only matters if it looks like a guard (has a raise in an arm)
-        uneval = [r for r in results if r[1] is None and any(isinstance(x, ast.Raise) for s in r[0].body + r[0].orelse for x in walk_no_nested(s))]
-        failing = [r for r in results if r[1] is False]
-        if uneval and not failing:
-            raise AnalysisError("HeaderItem.__init__: the %s guard `%s` left the analysable fragment (%s)" % (role, norm(uneval[0][0].test)[:80], uneval[0][2]))
-        if failing:
-            G, _, why, _ = failing[0]
-            ctx.check("guard/" + role, label, False, hdr, "if %s" % norm(G.test), "header guard on %s does not reject %s: %s" % (role, what_wrong, why), node=G)
+    def outcomes(self, pt):
+        """all (interp, outcome) over the choice paths of one abstract point"""
+        res = []
+        stack = [[]]
+        while stack:
+            prefix = stack.pop()
+            try:
+                it, out = self.construct(pt, prefix)
+            except NotEvaluable as e:
+                raise AnalysisError("HeaderItem.__init__ left the interpretable fragment: %s" % e)
+            res.append((it, out))
+            if len(res) > 64:
+                raise AnalysisError("more than 64 paths over unconstrained header fields")
+            for i in range(len(prefix), len(it.choices)):
+                stack.append(it.choices[:i] + [not it.choices[i]])
+        return res
+
+    @staticmethod
+    def _path_desc(it):
+        cs = [t for t in it.trace if t[0] == "choice"]
+        return "" if not cs else " when " + ", ".join("%s is %s" % (w, v) for _, w, _, v in cs[:3])
+
+    def locate(self, it, role):
+        """the evaluated construct that last looked at the role value -> (Func-like, construct, node)"""
+        cand = [(n, q) for r, n, q, _ in it.role_cmps if r == role or (role == "checksum" and r == "adler")]
+        node = q = None
+        if cand:
+            node, q = cand[-1]
         else:
-            self._maybe_in_helper(role, keys)
-            ctx.check("guard/" + role, label, False, hdr, "no guard on %s" % role,
-                      "HeaderItem.__init__ has no `if` on %s (%s): %s is not rejected" % (role, ", ".join(sorted(keys)) or "no expression", what_wrong), node=hdr.node)
-        return None
+            hs = self.holders.get(role, set())
+            pats = [re.compile(r"(?<![\w.])%s(?![\w])" % re.escape(h)) for h in hs]
+            for kind, n, qq, v in it.trace:
+                if kind == "if" and any(p.search(ast.unparse(n.test)) for p in pats):
+                    node, q = n, qq
+        if node is None:
+            return self.hdr, "no test on %s" % role, self.hdr.node
+        st = node
+        while st is not None and not isinstance(st, ast.stmt):
+            st = parent(st)
+        st = st or node
+        f = self.m.functions.get(q) or self.hdr
+        cons = "if %s" % norm(st.test) if isinstance(st, ast.If) else norm(st)[:140]
+        return f, cons, st
 
-    def _maybe_in_helper(self, role, keys):
-        """the guard may have been extracted into a helper: that is outside the fragment
-        this rule evaluates (exit 2), not evidence that the guard is gone"""
-        hdr = self.hdr
-        for c in (x for x in walk_no_nested(hdr.node) if isinstance(x, ast.Call)):
-            passes = any(_mentions(a, keys) for a in c.args) or any(_mentions(k.value, keys) for k in c.keywords)
-            callee = None
-            if isinstance(c.func, ast.Attribute) and isinstance(c.func.value, ast.Name) and c.func.value.id == "self" and hdr.cls is not None:
-                callee = hdr.cls.lookup(c.func.attr)
-            elif isinstance(c.func, ast.Name):
-                r = self.m.resolve_name(c.func.id)
-                callee = r[1] if r and r[0] == "func" else None
-            if callee is None or callee is self.read_at:
-                continue
-            has_raise = any(isinstance(n, ast.Raise) for n in walk_no_nested(callee.node))
-            mentions = any(isinstance(n, ast.If) and _mentions(n.test, keys) for n in walk_no_nested(callee.node))
-            if has_raise and (mentions or passes):
-                raise AnalysisError("HeaderItem.__init__: the %s check seems to have moved into helper %s; "
-                                    "guards inside helpers are outside the analysed fragment" % (role, callee.qualname))
+    def family(self, role, label, what_wrong, points):
+        """every path of every point must end in ValueError/NotImplementedError"""
+        ctx = self.ctx
+        ctx.count("guards")
+        n_paths = 0
+        for desc, pt in points:
+            for it, out in self.outcomes(pt):
+                n_paths += 1
+                if out[0] == "raise" and out[1] in REJECT_EXC:
+                    continue
+                pd = self._path_desc(it)
+                if out[0] == "ok":
+                    f, cons, node = self.locate(it, role)
+                    ctx.check("guard/" + role, label, False, f, cons,
+                              "a header with %s is accepted: for %s%s HeaderItem.__init__ runs to its normal end (interpreted path, no raise)" % (what_wrong, desc, pd),
+                              node=node, witness=dict(point=desc, path=pd))
+                    return False
+                if out[1] == "error":
+                    f, cons, node = self.locate(it, role)
+                    ctx.check("guard/" + role, label, False, f, cons,
+                              "for %s%s HeaderItem.__init__ does not reject with ValueError: struct.error escapes from `%s`" % (desc, pd, norm(out[2])[:60] if out[2] is not None else "?"),
+                              node=out[2] if out[2] is not None else node, witness=dict(point=desc))
+                    return False
+                raise AnalysisError("interpreting HeaderItem.__init__ for %s ended in %s at `%s`: not a modelled outcome" % (desc, out[1], norm(out[2])[:60] if out[2] is not None else "?"))
+        ctx.check("guard/" + role, label, True, self.hdr, role, "",
+                  detail="%d abstract points / %d interpreted paths, all end in ValueError/NotImplementedError (%s)" % (len(points), n_paths, what_wrong))
+        return True
+
+    def closed(self, role, build, run_once):
+        """run a family until the constants the code compares the role with are all in the partition"""
+        for _ in range(5):
+            before = {k: set(v) for k, v in self.rec.items()}
+            ok = run_once(build())
+            if not ok or all(self.rec[k] <= before[k] for k in self.rec):
+                return ok
+        raise AnalysisError("the partition for %s does not close" % role)
+
+    def pts_int(self, role, good, extra=()):
+        consts = {c for c in self.rec[role] if isinstance(c, int)} | {good} | set(extra)
+        return [p for p in order_points(consts, extra=(0xFFFFFFFF,)) if p <= 0xFFFFFFFF and p != good]
 
     def check_header(self):
-        ctx, hdr = self.ctx, self.hdr
-        sc = self._self_const_call()
-
-        # size
-        def ev_size(G):
-            out = []
-            for n in range(0, HEADER_LEN):
-                env = {k: n for k in self.role["nbytes"]}
-                out += self._tv("a %d byte buffer" % n, G, env, [sc])
-            return out
-        self._decide("size", "buffer shorter than 0x70 bytes raises", self.role["nbytes"], ev_size, "buffers shorter than the 0x70 byte header")
-
-        # magic
-        def ev_magic(G):
-            out = []
-            for base in GOOD_MAGICS:
-                for pos, allowed in MAGIC_CONSTRAINED.items():
-                    for v in range(256):
-                        if v in allowed:
-                            continue
-                        mg = base[:pos] + bytes([v]) + base[pos + 1:]
-                        env = {k: mg for k in self.role["magic"]}
-                        out += self._tv("magic %r" % mg, G, env, [sc])
-            return out
-        self._decide("magic", "wrong magic byte at positions 0,1,2,3,7 raises", self.role["magic"], ev_magic,
-                     "a magic whose bytes 0-3 are not 'dex\\n'/'dey\\n' or whose byte 7 is not NUL")
-        ctx.assume("the version digits magic[4:7] are deliberately tolerated by the code (warning, version 35 assumed); "
-                   "the magic clause is decided for the bytes the format fixes: 'dex'/'dey', '\\n', NUL")
-
-        # checksum
-        MASK = 0xFFFFFFFF
-
-        def ev_cs(G):
-            if not any(self._is_adler(n) for n in ast.walk(G.test)):
-                raise NotEvaluable("no adler32 call in the test")
-            consts = int_consts(G.test) - {MASK}
-            pts = [p for p in order_points(consts, extra=(MASK,)) if p <= MASK]
-            out = []
-            for a in pts:
-                for c in pts:
-                    if a == c:
-                        continue
-                    env = {k: c for k in self.role["checksum"]}
-                    out += self._tv("adler32=0x%x, stored checksum=0x%x" % (a, c), G, env, [(self._is_adler, lambda call, ev, a=a: a), sc])
-            return out
-        Gc = self._decide("checksum", "adler32 != stored checksum raises", self.role["checksum"], ev_cs, "a stored checksum different from the computed Adler-32")
-        self.check_checksum_operand()
-
-        # header size
-        def ev_hs(G):
-            consts = int_consts(G.test) | {HEADER_LEN}
-            out = []
-            for v in order_points(consts, extra=(0xFFFFFFFF,)):
-                if v == HEADER_LEN or v > 0xFFFFFFFF:
+        ctx = self.ctx
+        V = self.VALID
+        # ---- the valid header must be constructible (otherwise the model does not fit the code)
+        outs = self.outcomes(V)
+        oks = [o for o in outs if o[1][0] == "ok"]
+        strange = [o for o in outs if o[1][0] == "raise" and o[1][1] not in REJECT_EXC]
+        if strange:
+            raise AnalysisError("interpreting HeaderItem.__init__ on a valid header ended in %s at `%s`" % (strange[0][1][1], norm(strange[0][1][2])[:60] if strange[0][1][2] is not None else "?"))
+        if not oks:
+            o = outs[0][1]
+            raise AnalysisError("a valid header is rejected by the interpreted HeaderItem.__init__ (%s at `%s`): the model does not fit the code" % (o[1], norm(o[2])[:60] if o[2] is not None else "?"))
+        ctx.ob("model", "valid header is accepted", True, "valid header (dex 035, header_size 0x70, endian 0x12345678, adler == checksum): %d paths, %d accepted" % (len(outs), len(oks)))
+        # ---- checksum operand (positively known region)
+        seen = set()
+        for it, out in outs:
+            for start, size, node, q in it.adler_regions:
+                if id(node) in seen:
                     continue
-                env = {k: v for k in self.role["header_size"]}
-                out += self._tv("header_size=0x%x" % v, G, env, [sc])
-            return out
-        self._decide("header_size", "header_size != 0x70 raises", self.role["header_size"], ev_hs, "every header_size other than 0x70")
+                seen.add(id(node))
+                ctx.count("checksum_operands")
+                f = self.m.functions.get(q) or self.hdr
+                ctx.check("checksum/operand", "adler32 operand is bytes [12, EOF) of the header's file", start == CHECKSUM_FROM and size is None, f, node,
+                          "the Adler-32 is computed over bytes [%s, %s) relative to the header, not over [12, EOF)" % (start, "EOF" if size is None else start + size),
+                          node=node, detail="adler32 over stream bytes [offset+%s, %s)" % (start, "EOF" if size is None else start + size))
+        if not seen:
+            ctx.check("checksum/operand", "adler32 is computed", False, self.hdr, "no adler32 call", "no Adler-32 is computed on the path of a valid header", node=self.hdr.node)
+        # ---- families
+        self.closed("nbytes", lambda: [("a %d byte buffer" % n, dict(V, nbytes=n)) for n in range(0, HEADER_LEN)],
+                    lambda pts: self.family("size", "buffer shorter than 0x70 bytes is rejected", "fewer than 0x70 bytes", pts))
+        mpts = []
+        for bi, base in enumerate(GOOD_MAGICS):
+            for pos, allowed in MAGIC_CONSTRAINED.items():
+                for v in range(256):
+                    if v not in allowed:
+                        mpts.append(("magic %r" % (base[:pos] + bytes([v]) + base[pos + 1:]), dict(V, magic=base[:pos] + bytes([v]) + base[pos + 1:])))
+        self.family("magic", "wrong magic byte at positions 0,1,2,3,7 is rejected", "a magic whose bytes 0-3 are not 'dex\\n'/'dey\\n' or whose byte 7 is not NUL", mpts)
+        ctx.assume("the version digits magic[4:7] are deliberately tolerated by the code (warning, version 35 assumed); "
+                   "the magic clause is decided for the bytes the format fixes: 'dex'/'dey', '\\n', NUL; every single wrong byte is "
+                   "enumerated with the other bytes valid")
 
-        self.check_packer_call()
+        def cs_points():
+            consts = ({c for c in self.rec["checksum"] | self.rec["adler"]} - {0xFFFFFFFF})
+            pts = [p for p in order_points(consts, extra=(0xFFFFFFFF, V["checksum"])) if p <= 0xFFFFFFFF]
+            return [("adler32=0x%x, stored checksum=0x%x" % (a, c), dict(V, adler=a, checksum=c)) for a in pts for c in pts if a != c]
+        self.closed("checksum", cs_points, lambda pts: self.family("checksum", "adler32 != stored checksum is rejected", "a stored checksum different from the computed Adler-32", pts))
+        self.closed("header_size", lambda: [("header_size=0x%x" % v, dict(V, header_size=v)) for v in self.pts_int("header_size", HEADER_LEN)],
+                    lambda pts: self.family("header_size", "header_size != 0x70 is rejected", "a header_size other than 0x70", pts))
+        self.closed("endian", lambda: [("endian_tag=0x%08x" % v, dict(V, endian=v)) for v in self.pts_int("endian", ENDIAN_CONSTANT, (0x78563412,))],
+                    lambda pts: self.family("endian", "endian_tag != 0x12345678 is rejected by HeaderItem.__init__", "an endian tag other than 0x12345678", pts))
+        ctx.count("interpreted_runs", self.n_runs)
 
-    def check_checksum_operand(self):
-        ctx, hdr = self.ctx, self.hdr
-        calls = [n for n in walk_no_nested(hdr.node) if self._is_adler(n)]
-        for c in calls:
-            ctx.count("checksum_operands")
-            arg = c.args[0] if c.args else None
-            src = self._resolve(arg) if arg is not None else None
-            ra = self.read_at_call(src) if src is not None else None
-            inst = "checksum operand is read_at(buffer, offset+12) to EOF"
-            if ra is None:
-                ctx.check("checksum/operand", inst, False, hdr, c, "adler32 is not applied to a read_at(...) of the buffer: %s" % norm(c), node=c)
-                continue
-            b, o, s = ra
-            try:
-                k, cst = self.lin(o)
-            except NotEvaluable as e:
-                raise AnalysisError("checksum operand offset left the fragment: %s" % e)
-            ok_b = isinstance(b, ast.Name) and b.id == self.buff
-            ok_o = cst == CHECKSUM_FROM and (k == 1 or (k == 0 and self.offset_zero))
-            if s is None:
-                ok_s = self.read_at_default_to_eof
-            else:
+    # ------------------------------------------------------------------ DalvikPacker on its own
+    def check_packer(self):
+        ctx = self.ctx
+        pcls = self.m.cls("DalvikPacker")
+        pk = self.m.func("DalvikPacker.__init__")
+        ctx.analysed(pk)
+        rec = set()
+
+        def build(v):
+            res = []
+            stack = [[]]
+            while stack:
+                prefix = stack.pop()
+                it = Interp(ctx.repo, None, {}, prefix)
                 try:
-                    ok_s = Ev()(s) in (-1, None)
-                except NotEvaluable:
-                    ok_s = False
-            ctx.check("checksum/operand", inst, ok_b and ok_o and ok_s, hdr, c,
-                      "the Adler-32 is not computed over the bytes from header offset 12 to the end of the buffer: %s (start %s*offset+%s, size %s)"
-                      % (norm(c), k, cst, "default" if s is None else ast.unparse(s)), node=c,
-                      detail="adler32(read_at(%s, %s*offset+%d, size=%s))" % (ast.unparse(b), k, cst, "default -1" if s is None else ast.unparse(s)))
-
-    def check_packer_call(self):
-        ctx, hdr = self.ctx, self.hdr
-        cfg = self.hcfg
-        calls = []
-        for n in walk_no_nested(hdr.node):
-            if isinstance(n, ast.Call) and isinstance(n.func, ast.Name):
-                r = self.m.resolve_name(n.func.id)
-                if r and r[0] == "class" and r[1].name == "DalvikPacker":
-                    calls.append(n)
-        ctx.count("packer_calls", len(calls))
-        if not calls:
-            ctx.check("endian/call", "HeaderItem.__init__ constructs DalvikPacker", False, hdr, "no DalvikPacker(...) call",
-                      "HeaderItem.__init__ never constructs DalvikPacker: the endian tag is not checked", node=hdr.node)
-            return
-        ok_any = False
-        why = ""
-        for c in calls:
-            st = stmt_of(c, hdr.node)
-            arg = c.args[0] if c.args else (c.keywords[0].value if c.keywords else None)
-            key = ast.unparse(arg) if arg is not None else None
-            prov = None
-            if key in self.words:
-                fmt, (b, o, s), _ = self.words[key]
-                try:
-                    k, cst = self.lin(o)
-                    size = Ev()(s) if s is not None else None
+                    o = it.call(ClassV(pcls), [Role(v, "endian", rec)], {})
+                    out = ("ok", o, it)
+                except PyRaise as e:
+                    out = ("raise", e.name, e.node)
                 except NotEvaluable as e:
-                    raise AnalysisError("endian tag read left the fragment: %s" % e)
-                good = fmt in ("<I", "<L") and cst == OFF_ENDIAN and (k == 1 or (k == 0 and self.offset_zero)) and size == 4 \
-                    and isinstance(b, ast.Name) and b.id == self.buff
-                prov = "unpack(%r, read_at(%s, %d*offset+%d, %s))" % (fmt, ast.unparse(b), k, cst, size)
-            elif key in self.role["endian_slot"]:
-                good = True
-                prov = "slot at offset 40 of the header unpack"
-            else:
-                good = False
-                prov = "%s (not the word at header offset 40)" % key
-            on_all = not reach(cfg, cfg.entry, cfg.exit, avoid_nodes=[st])
-            sw = swallowed_by(st, hdr.node, REJECT_EXC)
-            if good and on_all and not sw:
-                ok_any = True
-                detail = "DalvikPacker(%s) with %s on every path to the exit" % (key, prov)
-            else:
-                why = ("argument is %s" % prov) if not good else ("not on every path to the exit" if not on_all else "inside a try that swallows the rejection")
-                bad = c
+                    raise AnalysisError("DalvikPacker.__init__ left the interpretable fragment: %s" % e)
+                res.append(out)
+                for i in range(len(prefix), len(it.choices)):
+                    stack.append(it.choices[:i] + [not it.choices[i]])
+                if len(res) > 16:
+                    raise AnalysisError("DalvikPacker.__init__ depends on unconstrained values")
+            return res
+        good = build(ENDIAN_CONSTANT)
         ctx.count("guards")
-        if ok_any:
-            ctx.check("endian/call", "DalvikPacker is built from the u32 at header offset 40 on every path", True, hdr, calls[0], "", detail=detail)
-        else:
-            ctx.check("endian/call", "DalvikPacker is built from the u32 at header offset 40 on every path", False, hdr, bad,
-                      "the endian tag check does not see the little-endian u32 at header offset 40 on every path: %s" % why, node=bad)
+        if not all(o[0] == "ok" for o in good):
+            raise AnalysisError("DalvikPacker(0x12345678) does not construct in the interpreter (%s): the model does not fit the code" % (good[0][1],))
+        # the prefix handed to struct
+        try:
+            st = good[0][2].call(good[0][2].get_attr(good[0][1], "__getitem__"), ["I"], {})
+        except (NotEvaluable, PyRaise) as e:
+            raise AnalysisError("DalvikPacker.__getitem__ left the interpretable fragment: %s" % e)
+        le = isinstance(st, StructV) and st.fmt == "<I"
+        ctx.ob("endian/prefix", "DalvikPacker(0x12345678)['I'] is struct.Struct('<I')", le, "interpreted: %s" % (getattr(st, "fmt", st),))
+        ctx.require(le, "DalvikPacker[fmt] is not struct.Struct('<' + fmt) for the little-endian tag")
+        bad = []
+        outcomes = {}
+        for _ in range(5):
+            before = set(rec)
+            consts = rec | {ENDIAN_CONSTANT, 0x78563412}
+            for v in order_points(consts, extra=(0xFFFFFFFF,)):
+                if v > 0xFFFFFFFF or v == ENDIAN_CONSTANT or v in outcomes:
+                    continue
+                outs = build(v)
+                outcomes[v] = outs
+            if rec <= before:
+                break
+        for v, outs in sorted(outcomes.items()):
+            for o in outs:
+                if o[0] == "ok":
+                    bad.append((v, "accepted"))
+                elif o[1] not in REJECT_EXC:
+                    raise AnalysisError("DalvikPacker(0x%x) ended in %s: not a modelled outcome" % (v, o[1]))
+        ctx.count("guards")
+        wit = ["0x%08x -> %s" % b for b in bad[:4]]
+        ctx.check("endian/reject", "every endian_tag != 0x12345678 raises (%d cells of the constant partition)" % len(outcomes), not bad, pk,
+                  "endian_tag != 0x12345678", "DalvikPacker accepts endian tag(s) other than 0x12345678: %s" % ", ".join(wit), node=pk.node, witness=wit,
+                  detail="cells: %s" % ", ".join("0x%x:%s" % (v, "/".join(sorted({o[1] if o[0] == "raise" else "ok" for o in outs}))) for v, outs in sorted(outcomes.items())))
 
     # ------------------------------------------------------------------ ordering
     def parser_classes(self):
@@ -789,15 +521,11 @@ class Core:
 
     # ------------------------------------------------------------------
     def run(self):
-        ctx = self.ctx
-        self.check_read_at()
+        self.buffer_param()
         self.check_packer()
-        self.roles_header()
         self.check_order()
+        self.P0 = 0 if self.offset_zero else 4096
         self.check_header()
-
-
-OWN_MUTATION_ADEQUACY = True   # thorough() below mutates the anchored functions in memory (pathkit.run_mutants)
 
 
 def core(ctx):
@@ -908,12 +636,13 @@ def thorough(ctx):
     load = m.func("DEX._load")
     init = m.func("DEX.__init__")
     c0 = Core(_quiet(ctx))
-    c0.check_read_at(); c0.check_packer(); c0.roles_header()
-    role = c0.role
+    c0.run()
+    texts = dict(c0.holders)
+    texts["nbytes"] = {"nbytes"}
 
     def on(rolename):
-        keys = role[rolename]
-        return lambda n: isinstance(n, ast.If) and bool(_mentions(n.test, keys)) and any(isinstance(s, ast.Raise) for s in n.body)
+        keys = texts.get(rolename, set())
+        return lambda n: isinstance(n, ast.If) and any(k in ast.unparse(n.test) for k in keys) and any(isinstance(s, ast.Raise) for s in n.body)
     mutants = []
     for r in ("nbytes", "magic", "checksum", "header_size"):
         mutants.append(("%s guard: raise -> logger.warning" % r, hdr, _raise_to_pass(on(r))))
